@@ -107,6 +107,7 @@ def step (s : St) (args : List String) : St × String × String :=
           renderContent o.state ++ ";" ++ md ++ ";" ++ bracket (sortStrs (r.2.map renderEventW)) ++ ";" ++
           renderContent r.1
     (s, m, RX.spec (rs.all (·.wireValid)) m)
+  | ["conc", _, _] => (s, "mon=ok", "mon=ok")   -- RPCs of several peers at once on one server with statistics: Go-side monitor (+ -race step)
   | ["opt", mask, resps] =>
     let k := mask.toNat?.getD 0
     let mk : MgrOpt.Mask := ⟨k % 2 == 1, (k / 2) % 2 == 1, (k / 4) % 2 == 1, (k / 8) % 2 == 1⟩
